@@ -29,7 +29,8 @@ def frontend_vocabulary(F):
                         if m and not is_err:
                             kw.add(m.group(1).lower())
     bi = set()
-    g = [x for x in F.hir if x.endswith("maybe_generate_ts_builtin")]
+    # the builtin-name table, by role: frontend functions that answer a TsBuiltIn from a match over string literals
+    g = [x for x in F.hir if F.fns.get(x) is not None and "TsBuiltIn" in (F.fns[x].output or "") and "/src/frontend/" in (F.fns[x].file or "")]
     for gid in g:
         for n in hwalk(F.hir[gid]["body"]):
             if n["k"] == "Match":
@@ -50,6 +51,107 @@ def string_constants(fn):
             for q in n["quasis"]:
                 out.append((q.get("cooked") or q.get("raw") or "", n))
     return out
+
+
+def return_field_coverage(mod, cname, fn):
+    """[(return node, fields it depends on)] and the set D of `this.<field>` the method reads at all (private helpers it
+    calls are seen through).  Dependence = data (through locals, accumulators, loop variables) or control (tests of the
+    enclosing conditionals and of earlier guards that leave the method)."""
+    nodes = list(tsast.walk_inl(mod, cname, fn))
+
+    def this_fields(e, env):
+        out = set()
+        for x in tsast.walk_inl(mod, cname, e):
+            if x["type"] == "MemberExpression" and x["object"]["type"] == "ThisExpression" and x["property"]["type"] == "Identifier":
+                out.add(x["property"]["value"])
+            elif x["type"] == "Identifier" and x["value"] in env:
+                out |= env[x["value"]]
+        return out
+    env = {}
+    changed = True
+    rounds = 0
+    while changed and rounds < 8:
+        changed = False
+        rounds += 1
+        for n in nodes:
+            tgt, src = [], None
+            t = n["type"]
+            if t == "VariableDeclarator" and n.get("init") is not None:
+                tgt, src = ts_common.binders(n["id"]), n["init"]
+            elif t == "AssignmentExpression" and unparen(n["left"]).get("type") == "Identifier":
+                tgt, src = [unparen(n["left"])["value"]], n["right"]
+            elif t in ("ForOfStatement", "ForInStatement") and n["left"].get("type") == "VariableDeclaration":
+                tgt, src = [b for d in n["left"]["declarations"] for b in ts_common.binders(d["id"])], n["right"]
+            elif t == "CallExpression":
+                mc = method_call(n)
+                if mc and mc[1] in ("push", "unshift", "set", "add") and unparen(mc[0]).get("type") == "Identifier" and mc[2]:
+                    tgt = [unparen(mc[0])["value"]]
+                    src = {"type": "ArrayExpression", "elements": [{"expression": a, "spread": None} for a in mc[2]], "span": n["span"]}
+            elif t in ("ArrowFunctionExpression", "FunctionExpression"):
+                # callback parameters of iteration methods depend on the receiver
+                continue
+            if src is None:
+                continue
+            fs = this_fields(src, env)
+            for b in tgt:
+                if b and not fs <= env.get(b, set()):
+                    env[b] = env.get(b, set()) | fs
+                    changed = True
+        # callback params: x.map((it) => ..) : it <- fields(x)
+        for n in nodes:
+            if n["type"] == "CallExpression":
+                mc = method_call(n)
+                if mc and mc[1] in ts_common.ITER_METHODS:
+                    fs = this_fields(mc[0], env)
+                    for a in mc[2]:
+                        if a.get("type") in ("ArrowFunctionExpression", "FunctionExpression"):
+                            for pn in ts_common.fn_params(a):
+                                if pn and not fs <= env.get(pn, set()):
+                                    env[pn] = env.get(pn, set()) | fs
+                                    changed = True
+    D = this_fields(fn, {}) - {"metadata"}
+    body = fn.get("body")
+    rets = []
+    if body is None:
+        return [], D
+
+    def exits(stmt):
+        if stmt["type"] in ("ReturnStatement", "ThrowStatement"):
+            return True
+        if stmt["type"] == "BlockStatement":
+            return any(exits(x) for x in stmt["stmts"])
+        return False
+
+    def visit(stmts, cond):
+        cond = set(cond)
+        for st in stmts:
+            t = st["type"]
+            if t == "ReturnStatement":
+                rets.append((st, cond | (this_fields(st["argument"], env) if st.get("argument") is not None else set())))
+            elif t == "IfStatement":
+                c2 = cond | this_fields(st["test"], env)
+                visit([st["consequent"]] if st["consequent"]["type"] != "BlockStatement" else st["consequent"]["stmts"], c2)
+                if st.get("alternate") is not None:
+                    visit([st["alternate"]] if st["alternate"]["type"] != "BlockStatement" else st["alternate"]["stmts"], c2)
+                if exits(st["consequent"]) or (st.get("alternate") is not None and exits(st["alternate"])):
+                    cond = c2      # what follows runs only when the guard did not leave
+            elif t == "BlockStatement":
+                visit(st["stmts"], cond)
+            elif t in ("ForOfStatement", "ForInStatement", "ForStatement", "WhileStatement", "DoWhileStatement"):
+                b = st["body"]
+                visit(b["stmts"] if b["type"] == "BlockStatement" else [b], cond | (this_fields(st.get("right") or st.get("test") or {"type": "x"}, env)))
+            elif t == "TryStatement":
+                visit(st["block"]["stmts"], cond)
+                if st.get("handler"):
+                    visit(st["handler"]["body"]["stmts"], cond)
+                if st.get("finalizer"):
+                    visit(st["finalizer"]["stmts"], cond)
+            elif t == "SwitchStatement":
+                c2 = cond | this_fields(st["discriminant"], env)
+                for cs in st["cases"]:
+                    visit(cs["consequent"], c2)
+    visit(body["stmts"], set())
+    return rets, D
 
 
 def run(cx, rep):
@@ -140,6 +242,21 @@ def run(cx, rep):
                    mod.loc(c), sample={"class": cn, "key_expr": ktxt})
     rep.rule("C15.5", "describeChildren yields every child validator that describe() descends into")
     describe_children_rule(cx, rep, fam, mod)
+    # ---------------------------------------------------------------- C15.6
+    rep.rule("C15.6", "every way out of describeTypeExpr reflects every field the description is built from")
+    n_ret = 0
+    for cn, c in sorted(fam.classes.items()):
+        m = c.methods.get("describeTypeExpr")
+        if m is None or m["function"].get("body") is None:
+            continue
+        rets, D = return_field_coverage(mod, cn, m["function"])
+        for r, deps in rets:
+            n_ret += 1
+            missing = sorted(D - deps)
+            rep.ob("C15.6", "%s/%s" % (cn, "+".join(sorted(deps)) or "constant"), not missing,
+                   "%s.describeTypeExpr has a return that does not depend on %s although the description reads %s elsewhere: for some validators the printed type loses that part (and compiles back to another validator)" % (
+                       cn, missing, missing), mod.loc(r), sample={"class": cn, "return_depends_on": sorted(deps), "fields_described": sorted(D)})
+    rep.floor("C15.6", "return sites of describeTypeExpr", n_ret, 20)
     # ---------------------------------------------------------------- C15.4
     rep.rule("C15.4", "recursion guards and single declaration")
     for cn, c in sorted(fam.classes.items()):
